@@ -2,7 +2,7 @@ use easy_error::{ensure, err_msg, Error, ResultExt};
 use futures::TryFutureExt;
 use milu::{
     parser::parse,
-    script::{Evaluatable, ScriptContext, Type, Value},
+    script::{ScriptContext, Type, Value},
 };
 use serde::{Deserialize, Serialize};
 use std::{
@@ -54,21 +54,21 @@ impl ScriptFormater {
     fn new(s: &str) -> Result<Self, Error> {
         let value = parse(s).context("fail to compile")?;
         let ctx: Arc<ScriptContext> = create_context(Default::default()).into();
-        let rtype = value.type_of(ctx.clone())?;
+        let rtype = value.real_type_of(ctx.clone())?;
         ensure!(
             rtype == Type::String,
             "log script type mismatch: required string, got {}\nsnippet: {}",
             rtype,
             s
         );
-        value.value_of(ctx)?;
+        value.real_value_of(ctx)?;
         Ok(Self(value))
     }
 }
 impl Formater for ScriptFormater {
     fn to_string(&self, e: Arc<ContextProps>) -> Result<String, Error> {
         let ctx = create_context(e);
-        self.0.value_of(ctx.into())?.try_into()
+        self.0.real_value_of(ctx.into())?.try_into()
     }
 }
 
